@@ -397,6 +397,129 @@ fn recv_path(which: usize, s: &str) -> char {
     r.unwrap_or('p')
 }
 
+/// a little-endian body that holds the string as an object path NESTED in a container, as it arrives
+/// from a peer (hand-encoded, independent of rustbus's marshaller): 0 second element of an array
+/// "ao" (after "/x"), 1 field of a struct "(yo)", 2 dict key "a{oy}", 3 dict value "a{yo}",
+/// 4 content of a variant "v"
+fn nested_body(route: usize, s: &str) -> MarshalledMessageBody {
+    let enc = le_str(s);
+    let (bytes, sig): (Vec<u8>, &str) = match route {
+        0 => {
+            let mut b = ((8 + enc.len()) as u32).to_le_bytes().to_vec();
+            b.extend_from_slice(&le_str("/x"));
+            b.push(0);
+            b.extend_from_slice(&enc);
+            (b, "ao")
+        }
+        1 => {
+            let mut b = vec![7, 0, 0, 0];
+            b.extend_from_slice(&enc);
+            (b, "(yo)")
+        }
+        2 => {
+            let mut b = ((enc.len() + 1) as u32).to_le_bytes().to_vec();
+            b.extend_from_slice(&[0, 0, 0, 0]);
+            b.extend_from_slice(&enc);
+            b.push(9);
+            (b, "a{oy}")
+        }
+        3 => {
+            let mut b = ((enc.len() + 4) as u32).to_le_bytes().to_vec();
+            b.extend_from_slice(&[0, 0, 0, 0]);
+            b.extend_from_slice(&[9, 0, 0, 0]);
+            b.extend_from_slice(&enc);
+            (b, "a{yo}")
+        }
+        _ => {
+            let mut b = vec![1, b'o', 0, 0];
+            b.extend_from_slice(&enc);
+            (b, "v")
+        }
+    };
+    MarshalledMessageBody::from_parts(bytes, 0, Vec::new(), sig.to_string(), ByteOrder::LittleEndian)
+}
+
+/// receive side of a NESTED body object path: route as in nested_body, decoder 0
+/// MarshalledMessageBody::validate(), 1 parser().get_param() (Param decoder), 2 the typed
+/// parser().get::<..>() with ObjectPath wrappers. o = accepted (and the decoded value is the one
+/// encoded), e = Err, x = Ok with another value, p = panic
+fn recv_nested(route: usize, dec: usize, s: &str) -> char {
+    use rustbus::params::{Container, Param};
+    use std::collections::HashMap;
+    let r = catch_unwind(AssertUnwindSafe(|| {
+        let body = nested_body(route, s);
+        let is_path = |p: &Param, want: &str| match p {
+            Param::Base(Base::ObjectPath(q)) => q == want,
+            Param::Base(Base::ObjectPathRef(q)) => *q == want,
+            _ => false,
+        };
+        match dec {
+            0 => match body.validate() {
+                Err(_) => 'e',
+                Ok(()) => 'o',
+            },
+            1 => match body.parser().get_param() {
+                Err(_) => 'e',
+                Ok(Param::Container(c)) => {
+                    let good = match (route, &c) {
+                        (0, Container::Array(a)) => {
+                            a.values.len() == 2 && is_path(&a.values[0], "/x") && is_path(&a.values[1], s)
+                        }
+                        (1, Container::Struct(f)) => {
+                            f.len() == 2 && matches!(f[0], Param::Base(Base::Byte(7))) && is_path(&f[1], s)
+                        }
+                        (2, Container::Dict(d)) => {
+                            d.map.len() == 1
+                                && d.map.iter().all(|(k, v)| {
+                                    is_path(&Param::Base(k.clone()), s) && matches!(v, Param::Base(Base::Byte(9)))
+                                })
+                        }
+                        (3, Container::Dict(d)) => {
+                            d.map.len() == 1
+                                && d.map.iter().all(|(k, v)| matches!(k, Base::Byte(9)) && is_path(v, s))
+                        }
+                        (4, Container::Variant(v)) => is_path(&v.value, s),
+                        _ => false,
+                    };
+                    if good {
+                        'o'
+                    } else {
+                        'x'
+                    }
+                }
+                Ok(_) => 'x',
+            },
+            _ => {
+                let mut parser = body.parser();
+                let res: Result<bool, rustbus::wire::errors::UnmarshalError> = match route {
+                    0 => parser
+                        .get::<Vec<ObjectPath<&str>>>()
+                        .map(|v| v.len() == 2 && v[0].as_ref() == "/x" && v[1].as_ref() == s),
+                    1 => parser
+                        .get::<(u8, ObjectPath<&str>)>()
+                        .map(|(y, p)| y == 7 && p.as_ref() == s),
+                    2 => parser
+                        .get::<HashMap<ObjectPath<String>, u8>>()
+                        .map(|m| m.len() == 1 && m.iter().all(|(k, v)| k.as_ref() == s && *v == 9)),
+                    3 => parser
+                        .get::<HashMap<u8, ObjectPath<&str>>>()
+                        .map(|m| m.len() == 1 && m.iter().all(|(k, v)| *k == 9 && v.as_ref() == s)),
+                    _ => parser
+                        .get::<rustbus::wire::unmarshal::traits::Variant>()
+                        .and_then(|v| v.get::<ObjectPath<&str>>())
+                        .map(|p| p.as_ref() == s),
+                };
+                match res {
+                    Err(_) => 'e',
+                    Ok(true) => 'o',
+                    Ok(false) => 'x',
+                }
+            }
+        }
+    }));
+    r.unwrap_or('p')
+}
+
 /// hand-written encoder of a little-endian header with the given name fields (position, string)
 /// and optional reply serial; independent of rustbus's marshaller
 fn encode_header(typ: usize, names: &[(usize, &str)], reply_serial: bool) -> Vec<u8> {
@@ -473,7 +596,7 @@ fn is_sep(c: char) -> bool {
 }
 
 /// (interesting, nontrivial, line)
-fn eval(s: &str, n: u64) -> (bool, bool, String) {
+fn eval(s: &str, n: u64, label: Option<&str>) -> (bool, bool, String) {
     let p = st(&catch_unwind(|| validate_object_path(s)));
     let i = st(&catch_unwind(|| validate_interface(s)));
     let e = st(&catch_unwind(|| validate_errorname(s)));
@@ -497,6 +620,7 @@ fn eval(s: &str, n: u64) -> (bool, bool, String) {
     let y: String = (0..6).map(|k| body_path(k, s)).collect();
     let t: String = (0..6).map(|k| ctor(k, s)).collect();
     let r: String = (0..2).map(|k| recv_path(k, s)).collect();
+    let nn: String = (0..15).map(|k| recv_nested(k / 3, k % 3, s)).collect();
     let hs: Vec<(char, Option<String>)> = (0..6).map(|k| recv(k, s)).collect();
     let h: String = hs.iter().map(|x| x.0).collect();
     let hd: Vec<String> = hs.into_iter().filter_map(|x| x.1).collect();
@@ -505,14 +629,18 @@ fn eval(s: &str, n: u64) -> (bool, bool, String) {
         || y != "eeeeee"
         || t != "eeeeee"
         || r != "ee"
+        || nn != "eeeeeeeeeeeeeee"
         || h != "eeeeee";
     let nontrivial = interesting || (s.chars().any(is_sep) && s.chars().any(is_name_char));
     (
         interesting,
         nontrivial,
         format!(
-            "{} P:{} I:{} E:{} B:{} M:{} O:{} W:{} Y:{} T:{} R:{} H:{}{}{}",
-            hex(s.as_bytes()),
+            "{} P:{} I:{} E:{} B:{} M:{} O:{} W:{} Y:{} T:{} R:{} N:{} H:{}{}{}",
+            match label {
+                Some(l) => l.to_string(),
+                None => hex(s.as_bytes()),
+            },
             p,
             i,
             e,
@@ -523,6 +651,7 @@ fn eval(s: &str, n: u64) -> (bool, bool, String) {
             y,
             t,
             r,
+            nn,
             h,
             if wd.is_empty() {
                 String::new()
@@ -553,9 +682,27 @@ fn main() {
                 match std::str::from_utf8(&bytes) {
                     Ok(s) => {
                         n += 1;
-                        writeln!(out, "{}", eval(s, n).2).unwrap()
+                        writeln!(out, "{}", eval(s, n, None).2).unwrap()
                     }
                     Err(_) => writeln!(out, "{} NOTUTF8", hex(&bytes)).unwrap(),
+                }
+            }
+            ["rep", pfx, unit, count, sfx] => {
+                // prefix ++ unit * count ++ suffix (long strings without megabytes of hex on the lines)
+                let count: usize = count.parse().unwrap();
+                let mut bytes = unhex(pfx);
+                let u = unhex(unit);
+                for _ in 0..count {
+                    bytes.extend_from_slice(&u);
+                }
+                bytes.extend_from_slice(&unhex(sfx));
+                let label = format!("rep/{}/{}/{}/{}", pfx, unit, count, sfx);
+                match std::str::from_utf8(&bytes) {
+                    Ok(s) => {
+                        n += 1;
+                        writeln!(out, "{}", eval(s, n, Some(&label)).2).unwrap()
+                    }
+                    Err(_) => writeln!(out, "{} NOTUTF8", label).unwrap(),
                 }
             }
             ["enum", al, len, first] => {
@@ -577,7 +724,7 @@ fn main() {
                     let s: String = idx.iter().map(|&i| alpha[i]).collect();
                     total += 1;
                     n += 1;
-                    let (interesting, nt, l) = eval(&s, n);
+                    let (interesting, nt, l) = eval(&s, n, None);
                     if nt {
                         nontriv += 1;
                     }
@@ -615,7 +762,7 @@ fn main() {
                         s.push_str(&sfx);
                         total += 1;
                         n += 1;
-                        let (interesting, nt, l) = eval(&s, n);
+                        let (interesting, nt, l) = eval(&s, n, None);
                         if nt {
                             nontriv += 1;
                         }
